@@ -496,6 +496,38 @@ pub fn push_allowance(exps: &mut Vec<Exp>, depth: usize) {
     exps.push(Exp::new("tight wallet allowance", cfg_with(true, true, 0), alpha, seeds, depth));
 }
 
+/// Entry points outside the harness's alphabets: every engine execute variant the alphabets have no action for is
+/// exercised with messages synthesised from the contract's own JSON schema (synth.rs), sent by an account without a
+/// position and by a trader, in a state where three traders hold positions. Nothing to explore on a tree whose
+/// execute variants are all known.
+pub fn push_unknown_variants(exps: &mut Vec<Exp>, run: &mut Run) {
+    for cw20 in [true, false] {
+        let cfg = cfg_liq(cw20, true, 250_000);
+        let w = World::new(&cfg);
+        let msgs = crate::synth::unknown_engine_msgs(&w);
+        if msgs.is_empty() {
+            continue;
+        }
+        let mut names: Vec<String> = msgs.iter().map(|m| m.0.clone()).collect();
+        names.dedup();
+        run.assumptions.push(format!("engine execute variants outside the action alphabets, exercised with {} schema-synthesised messages: {:?}", msgs.len(), names));
+        let mut alpha = vec![];
+        for (_, m) in &msgs {
+            for by in ["stranger", "carol"] {
+                alpha.push(Act::RawExec { by: by.into(), json: m.to_string() });
+            }
+        }
+        let seeds = vec![
+            vec![Act::open("alice", true, SIZE_M.0, SIZE_M.1), Act::open("bob", false, SIZE_S.0, SIZE_S.1), Act::open("carol", true, SIZE_S.0, SIZE_S.1), Act::blk(15)],
+            seed_liquidatable(),
+        ];
+        let mut e = Exp::new("entry points outside the alphabets", cfg, alpha, seeds, 1);
+        e.traders = T3.to_vec();
+        e.raw = true;
+        exps.push(e);
+    }
+}
+
 /// Configuration changed mid-history: the owner's legal updates of the engine ratios and of the vAMM's fee and band
 /// settings are actions, interleaved with trades, liquidations and funding on positions opened under the old values.
 /// The oracles read the configuration in force (`World::live_cfg`).
@@ -568,7 +600,7 @@ pub fn push_sweep(exps: &mut Vec<Exp>, depth: usize) {
 fn with_funding_due(seed: Vec<Act>) -> Vec<Act> {
     seed.into_iter()
         .map(|a| match a {
-            Act::Blk { blocks, secs: 1200 } => Act::Blk { blocks, secs: 3900 },
+            Act::Blk { blocks, secs: 1200, ms } => Act::Blk { blocks, secs: 3900, ms },
             x => x,
         })
         .collect()
@@ -651,6 +683,7 @@ pub fn run_c02(tier: Tier) -> i32 {
     push_cfgchange(&mut exps, tier.pick(3, 4));
     push_allowance(&mut exps, tier.pick(3, 4));
     push_dec9(&mut exps, tier.pick(1, 3), false);
+    push_unknown_variants(&mut exps, &mut run);
     run_exps(&mut run, step_c02, exps, |_| {});
     run.finish()
 }
@@ -717,6 +750,7 @@ pub fn run_c03(tier: Tier) -> i32 {
     push_cfgchange(&mut exps, tier.pick(3, 4));
     push_allowance(&mut exps, tier.pick(3, 4));
     push_dec9(&mut exps, tier.pick(1, 3), false);
+    push_unknown_variants(&mut exps, &mut run);
     run_exps(&mut run, step_c03, exps, |_| {});
     run.finish()
 }
@@ -834,6 +868,7 @@ pub fn run_c10(tier: Tier) -> i32 {
     }
     push_cfgchange(&mut exps, tier.pick(3, 4));
     push_dec9(&mut exps, tier.pick(1, 3), true);
+    push_unknown_variants(&mut exps, &mut run);
     run_exps(&mut run, step_c10, exps, |_| {});
     run.finish()
 }
@@ -1523,6 +1558,7 @@ pub fn run_c08(tier: Tier) -> i32 {
     push_cfgchange(&mut exps, tier.pick(3, 4));
     push_allowance(&mut exps, tier.pick(3, 4));
     push_dec9(&mut exps, tier.pick(1, 3), false);
+    push_unknown_variants(&mut exps, &mut run);
     run_exps(&mut run, step_c08, exps, |_| {});
     run.finish()
 }
@@ -1825,15 +1861,30 @@ fn alpha_c15(w: &mut World, s: &EngSt) -> Vec<Act> {
     let l = w.live_cfg(0).fluct / w.cfg.k();
     let d = w.d;
     let mut acts = vec![];
-    // trade sizes on either side of the band edge, plus a small one for drift
-    let moves_up = [1_000_000 + l - l / 50, 1_000_000 + l + l / 50, 1_000_000 + l / 2];
-    let moves_dn = [1_000_000 - l + l / 50, 1_000_000 - l - l / 50, 1_000_000 - l / 2];
+    // trade sizes that land just inside and just outside either edge of the band around the previous block's closing
+    // price (the monitor's; the current price before the first block step) - from wherever the price has drifted to
+    // inside the block, so a trade against the drift can reach the far edge - plus a small one for drift
+    let spot = w.spot(0);
+    let prev = s.mon["p"].as_u64().map(|x| x as u128).unwrap_or(spot).max(1);
+    let to_ppm = |target: u128| -> u128 { target * 1_000_000 / spot.max(1) };
+    let (up_in, up_out) = (prev * (1_000_000 + l - l / 50) / 1_000_000, prev * (1_000_000 + l + l / 50) / 1_000_000);
+    let (dn_in, dn_out) = (prev * (1_000_000 - l + l / 50) / 1_000_000, prev * (1_000_000 - l - l / 50) / 1_000_000);
+    let mut moves_up = vec![1_000_000 + l / 2];
+    let mut moves_dn = vec![1_000_000 - l / 2];
+    for tgt in [up_in, up_out, dn_in, dn_out] {
+        let f = to_ppm(tgt);
+        if f > 1_000_000 {
+            moves_up.push(f);
+        } else if f < 1_000_000 && f > 0 {
+            moves_dn.push(f);
+        }
+    }
     for t in T2 {
-        for f in moves_up {
+        for f in moves_up.iter().copied() {
             let n = notional_for_move(q, f);
             acts.push(Act::Open { t: t.into(), v: 0, buy: true, margin: n / 2 + 1, lev: 2 * d, limit: 0 });
         }
-        for f in moves_dn {
+        for f in moves_dn.iter().copied() {
             let n = notional_for_move(q, f);
             acts.push(Act::Open { t: t.into(), v: 0, buy: false, margin: n / 2 + 1, lev: 2 * d, limit: 0 });
         }
